@@ -227,6 +227,14 @@ fn ledger_driver(out: &str, seed: u64, n: u64, len: u64) {
         if k % 3 == 1 {
             r.act(json!({"op":"config_group_fee","group":"G1","enable":false}));
         }
+        // fee settings: every combination of absent / present insurance and group fees (fixed and rate-proportional)
+        if k % 5 != 0 {
+            for b in banks {
+                let z = |rng: &mut StdRng, v: &'static str| if rng.gen_bool(0.5) { "0" } else { v };
+                let (a1, a2, a3, a4) = (z(&mut rng, "0.01"), z(&mut rng, "0.1"), z(&mut rng, "0.02"), z(&mut rng, "0.05"));
+                r.act(json!({"op":"configure_interest","bank":b,"ir":{"ins_fixed":a1,"ins_ir":a2,"grp_fixed":a3,"grp_ir":a4}}));
+            }
+        }
         // seed liquidity so that borrowing is possible in most scenarios
         if k % 4 != 3 {
             r.act(json!({"op":"deposit","acct":"A4","bank":"B1","amount": 5_000_000_000u64}));
@@ -640,7 +648,8 @@ fn liq_driver(out: &str, seed: u64, n: u64) {
             extra.push(json!({"op":"deposit","acct":"A2","bank":"D1","amount":7,"may_fail":true}));
             extra.push(json!({"op":"deposit","acct":"A2","bank":"C1","amount":camt.saturating_mul(40),"may_fail":true}));
         }
-        if rng.gen_bool(0.3) {
+        let optin = rng.gen_bool(0.3);
+        if optin {
             extra.push(json!({"op":"configure_bank","bank":"D1","cfg":{"permissionless_bad_debt":true}}));
         }
         r.begin(&extra);
@@ -723,6 +732,14 @@ fn liq_driver(out: &str, seed: u64, n: u64) {
         let (mut llo, mut lhi) = (0u64, top);
         let e1 = r.probe(&mkl(1));
         if e1["res"] == "ok" {
+            // a liquidation that would be accepted is refused while either bank is paused (recorded side branches;
+            // reduce-only does not stop it)
+            for (bank, st) in [("D1", 0u64), ("C1", 0), ("D1", 2), ("C1", 2)] {
+                r.fork(&mut |r: &mut Recorder| {
+                    r.act(json!({"op":"configure_bank","bank":bank,"cfg":{"op_state":st}}));
+                    r.act(mkl(1));
+                });
+            }
             llo = 1;
             let etop = r.probe(&mkl(top));
             if etop["res"] != "ok" {
@@ -761,8 +778,22 @@ fn liq_driver(out: &str, seed: u64, n: u64) {
                 }
             }
         }
+        // an account that still holds collateral of value is not bankrupt, whatever state the collateral bank is in
+        // (recorded side branches: reduce-only, paused, and as it is)
+        for st in [2u64, 0, 1] {
+            r.fork(&mut |r: &mut Recorder| {
+                if st != 1 {
+                    r.act(json!({"op":"configure_bank","bank":"C1","cfg":{"op_state":st}}));
+                }
+                r.act(json!({"op":"bankruptcy","acct":"A1","bank":"D1"}));
+            });
+        }
         // bankruptcy path: collateral becomes worthless
         if bk_path {
+            // (a redundant "off" for a switch that was never on must leave it off)
+            if !optin && rng.gen_bool(0.6) {
+                r.act(json!({"op":"configure_bank","bank":"D1","cfg":{"permissionless_bad_debt":false}}));
+            }
             r.act(set_price(&c1, c1_fixed, 1, 0));
             // seize whatever can still be seized
             for _ in 0..3 {
@@ -1454,6 +1485,20 @@ fn recv_driver(out: &str, seed: u64, n: u64) {
         extra.push(json!({"op":"deposit","acct":"A3","bank":"C1","amount":camt3}));
         extra.push(json!({"op":"init_liq_record","acct":"A1"}));
         extra.push(json!({"op":"init_liq_record","acct":"A3"}));
+        // the first borrower also lends in an isolated-tier bank and in a collateral bank whose initial weight is zero:
+        // deposits the bracket's end checks value at nothing resp. only at maintenance level
+        let with_iso = rng.gen_bool(0.5);
+        if with_iso {
+            extra.push(json!({"op":"add_mint","mint":"M.I1","decimals":6,"kind":"spl"}));
+            extra.push(json!({"op":"add_bank","group":"G1","bank":"I1","mint":"M.I1","cfg":{"aw_init":"0","aw_maint":"0","risk_tier":1}}));
+            extra.push(json!({"op":"add_bank","group":"G1","bank":"Z1","mint":"M.I1","seed":7,"cfg":{"aw_init":"0","aw_maint":*pick(&mut rng, &["0", "0.5"])}}));
+            extra.push(json!({"op":"set_fixed_price","bank":"I1","price":"1"}));
+            extra.push(json!({"op":"set_fixed_price","bank":"Z1","price":"1"}));
+            extra.push(json!({"op":"fund","user":"U1","mint":"M.I1","amount":"4000000000000"}));
+            extra.push(json!({"op":"fund","user":"liquidator","mint":"M.I1","amount":"1000000"}));
+            extra.push(json!({"op":"deposit","acct":"A1","bank":"I1","amount":*pick(&mut rng, &[3_000_000u64, 50_000_000, 1_000_000_000])}));
+            extra.push(json!({"op":"deposit","acct":"A1","bank":"Z1","amount":*pick(&mut rng, &[3_000_000u64, 50_000_000])}));
+        }
         r.begin(&extra);
         // both borrow to their limit
         let mut debt = [0u64; 2];
@@ -1564,6 +1609,15 @@ fn recv_driver(out: &str, seed: u64, n: u64) {
             let w = *pick(&mut rng, &[lo, lo, lo / 2 + 1, 1]);
             if r.act(mk(w))["res"] == "ok" {
                 nacc += 1;
+            }
+        }
+        // the receiver reaches for the deposits the end checks cannot see
+        if with_iso {
+            let wdb = |b: &str, x: u64, all: bool| json!({"op":"withdraw","acct":"A1","bank":b,"amount":x,"all":all,"signer":"liquidator"});
+            for b in ["I1", "Z1"] {
+                r.act(tx(vec![start("A1"), wdb(b, 0, true), end("A1")]));
+                r.act(tx(vec![start("A1"), wdb(b, 1_000_000, false), rep("A1", 1, false), end("A1")]));
+                r.act(tx(vec![start("A1"), rep("A1", debt[0] / 10 + 1, false), wdb(b, 2_500_000, false), end("A1")]));
             }
         }
         // making the account healthy: repay (nearly) everything, take nothing
